@@ -338,7 +338,7 @@ def afterResolve (q : Quirks) (env : Env) (kvs : List (String × Json)) : Option
      | .ok fs => .ok (.obj c fs)
      | .error e => .error e)
   | some (.dispatch c .registry) =>
-    (match lookup "value" kvs with
+    (match lookup (env.payloadKey c) kvs with
      | some (.str p) => .ok (.ext c p)
      | _ => .error .payload)
   | none => .error .payload
